@@ -61,7 +61,7 @@ def gen_workload(tape, *, max_funcs=5, max_size=3, allow_gen=True, allow_tuple=T
         name = f"s{counters['s']}"
         counters["s"] += 1
         inputs[name] = {"axes": [], "kind": "scalar", "base": 0,
-                        "value": tape.pick(["str", "str", "str", "zero", "empty", "none", "false", "tuple"], "scalar-value")}
+                        "value": tape.pick(["str", "str", "str", "zero", "empty", "none", "false", "tuple", "float", "nan"], "scalar-value")}
         scalars.append(name)
         return name
 
@@ -192,7 +192,8 @@ def build_inputs(w):
     out = {}
     for name, d in w["inputs"].items():
         if d["kind"] == "scalar":
-            out[name] = {"zero": 0, "empty": "", "none": None, "false": False, "tuple": ()}.get(d.get("value", "str"), f"{name}-val")
+            out[name] = {"zero": 0, "empty": "", "none": None, "false": False, "tuple": (), "float": 1.5,
+                         "nan": float("nan")}.get(d.get("value", "str"), f"{name}-val")
         elif d["kind"] == "default":
             if d.get("provided"):
                 out[name] = f"{name}-given"
